@@ -5,7 +5,7 @@
 (* it has a trailing separator); the harness expands it into tokens, the         *)
 (* expected tree and the gap list.  TLC enumerates the derivations exhaustively  *)
 (* for small bounds or samples them with -simulate.                              *)
-EXTENDS Syntax, Json
+EXTENDS Syntax, Json, FiniteSets
 
 CONSTANTS RootCat,    \* category of the top-level list items
           RootMax,    \* maximal number of top-level items
@@ -13,7 +13,13 @@ CONSTANTS RootCat,    \* category of the top-level list items
           Family,     \* "5" | "7": variants of the other family are excluded
           Allowed,    \* set of variant ids usable ({} = all)
           Random,     \* BOOLEAN: sample one successor per step (for -simulate)
-          MaxChoices  \* bound on the size of a derivation (0 = none): prunes exhaustive enumeration to small programs
+          MaxChoices, \* bound on the size of a derivation (0 = none): prunes exhaustive enumeration to small programs
+          ListLens,   \* {} or a set of lengths: every list that may have two or more items takes one of THESE lengths instead
+                      \* (long lists: slices that outgrow their first capacity, separator lists of 4 .. 9 tokens)
+          Glue,       \* {} or a set of variant ids ("self-nesting" mode): besides the glue variants a derivation uses ONE other
+                      \* variant only, any number of times - a construct nested in itself through brackets, arguments, blocks
+          Wrappers    \* the glue variants through which a construct can contain itself; the other glue variants are closers: the
+                      \* cheapest way to finish a category; closers do not count against MaxChoices in this mode
 
 VARIABLES todo, choices, done
 gvars == <<todo, choices, done>>
@@ -49,10 +55,20 @@ RECURSIVE Lens(_, _, _)
 Lens(items, i, d) ==
    IF i > Len(items) THEN {<<>>}
    ELSE IF items[i].f # "ls" THEN Lens(items, i + 1, d)
-   ELSE LET ns == IF d = 0 THEN {items[i].lo} ELSE items[i].lo .. items[i].hi
+   ELSE LET ns == IF d = 0 THEN {items[i].lo}
+                  ELSE IF ListLens # {} /\ items[i].hi >= 2 THEN {n \in ListLens : n >= items[i].lo}
+                  ELSE items[i].lo .. items[i].hi
         IN {<<<<n, t>>>> \o rest : n \in ns, t \in (IF items[i].trail = "opt" THEN BOOLEAN ELSE IF items[i].trail = "yes" THEN {TRUE} ELSE {FALSE}), rest \in Lens(items, i + 1, d)}
 
 LensTab == [v \in 1 .. NV |-> [z \in BOOLEAN |-> Lens(VItems[v], 1, IF z THEN 0 ELSE 1)]]    \* Lens depends on d only through d = 0
+
+\* self-nesting mode: the lists are as short as they can be, or have one item
+RECURSIVE LensS(_, _)
+LensS(items, i) ==
+   IF i > Len(items) THEN {<<>>}
+   ELSE IF items[i].f # "ls" THEN LensS(items, i + 1)
+   ELSE {<<<<n, FALSE>>>> \o rest : n \in {items[i].lo} \cup (IF items[i].hi >= 1 /\ items[i].trail # "yes" THEN {1} ELSE {}), rest \in LensS(items, i + 1)}
+LensShort == [v \in 1 .. NV |-> LensS(VItems[v], 1)]
 
 RECURSIVE Kids(_, _, _, _, _), Rep(_, _)
 Rep(x, n) == IF n = 0 THEN <<>> ELSE <<x>> \o Rep(x, n - 1)
@@ -66,20 +82,35 @@ GInit == /\ done = FALSE
               /\ todo = Rep([cat |-> RootCat, min |-> 0, d |-> Depth], n)
               /\ choices = << <<0, << <<n, FALSE>> >> >> >>
 
+GlueIdx == {v \in 1 .. NV : Variants[v].id \in Glue}
+\* self-nesting mode: v is glue, or the one other variant of this derivation
+FocusOK(v) == \/ Glue = {} \/ v \in GlueIdx
+              \/ (VItems[v] # <<>> /\ \A i \in 2 .. Len(choices) : choices[i][1] \in GlueIdx \/ choices[i][1] = v)
+CloserIdx == {v \in GlueIdx : Variants[v].id \notin Wrappers}
+Weight == Cardinality({i \in 2 .. Len(choices) : choices[i][1] \notin CloserIdx})
+CandsF(h) == IF Glue = {} THEN Cands(h) ELSE {v \in Cands(h) : FocusOK(v) /\ (v \in CloserIdx \/ Weight < MaxChoices)}
+
+\* sampling in the self-nesting mode: while no construct has been chosen yet, every second derivation starts with an
+\* expression statement, so that expressions are the nested construct as often as statements are
+ExprStmtIdx == {v \in GlueIdx : Variants[v].id = "StmtExpression"}
+PickOne(S) == IF Glue # {} /\ Len(choices) = 1 /\ S \cap ExprStmtIdx # {} /\ RandomElement({0, 1}) = 1
+              THEN RandomElement(S \cap ExprStmtIdx) ELSE RandomElement(S)
+
 \* (a derivation needs at least one more choice per pending request: successors that cannot finish within MaxChoices are not generated)
 Apply(h, v, lens) == LET d2 == IF h.d = 0 THEN 0 ELSE h.d - 1
                          kids == Kids(VItems[v], lens, 1, 1, d2) IN
-                     /\ (MaxChoices = 0 \/ Len(choices) + 1 + Len(kids) + Len(todo) - 1 <= MaxChoices)
+                     /\ (Glue # {} \/ MaxChoices = 0 \/ Len(choices) + 1 + Len(kids) + Len(todo) - 1 <= MaxChoices)
                      /\ choices' = Append(choices, <<v, lens>>)
                      /\ todo' = kids \o Tail(todo)
 
 Expand == /\ todo # <<>> /\ ~done
-          /\ (MaxChoices = 0 \/ Len(choices) + Len(todo) <= MaxChoices)
+          /\ (Glue # {} \/ MaxChoices = 0 \/ Len(choices) + Len(todo) <= MaxChoices)
           /\ LET h == Head(todo) IN
-             IF Random
-             THEN \E v \in {RandomElement(Cands(h))} :                     \* sampling (-simulate): one successor per step
-                    \E lens \in {RandomElement(LensTab[v][h.d = 0])} : Apply(h, v, lens)
-             ELSE \E v \in Cands(h) : \E lens \in LensTab[v][h.d = 0] : Apply(h, v, lens)
+             /\ CandsF(h) # {}
+             /\ IF Random
+                THEN \E v \in {PickOne(CandsF(h))} :                          \* sampling (-simulate): one successor per step
+                       \E lens \in {RandomElement(IF Glue # {} /\ h.d > 0 THEN LensShort[v] ELSE LensTab[v][h.d = 0])} : Apply(h, v, lens)
+                ELSE \E v \in CandsF(h) : \E lens \in (IF Glue # {} /\ h.d > 0 THEN LensShort[v] ELSE LensTab[v][h.d = 0]) : Apply(h, v, lens)
           /\ UNCHANGED done
 
 Finish == /\ todo = <<>> /\ ~done
@@ -92,7 +123,7 @@ GSpec == GInit /\ [][GNext]_gvars
 
 \* design-level checks on the machine itself
 Terminates == Len(choices) <= 400                       \* the depth budget bounds every derivation
-NoDeadEnd == (todo # <<>> /\ ~done) => Cands(Head(todo)) # {}
+NoDeadEnd == (todo # <<>> /\ ~done) => Cands(Head(todo)) # {}      \* (dead ends of the self-nesting mode are simply not behaviours)
 
 \* the table is exported once per run (first line of the output)
 ExportTable == PrintT(ToJson([variants |-> Variants, root |-> RootFill]))
